@@ -90,8 +90,22 @@ def judge(case) -> Verdict:
                 objs[i].line = _render((b2, w2), cls_name, platform, styles[i % len(styles)])
             pairs[i] = (b2, w2)
         v.label("re-addressed-after-first-collapse")
+    if case.get("spoil"):
+        # history: collapse once, let the caller edit the RETURNED objects (they are the caller's), then collapse
+        # fresh inputs again - earlier results must not leak into later ones
+        for k, o in enumerate(fn(list(objs))):
+            o.note = f"caller note {k}"
+            if case["spoil"] == "line":
+                o.line = "host 198.51.100.1" if cls_name == "Address" else "host 198.51.100.1"
+        objs = [cls(_render(p, cls_name, platform, styles[i % len(styles)]), platform=platform, note=f"n{i}")
+                for i, p in enumerate(pairs)]
+        v.label("returned-objects-edited-before-second-collapse")
     before = [(o.line, o.note) for o in objs]
-    out = fn(list(objs))
+    container = case.get("container", "list")
+    arg = {"list": list(objs), "tuple": tuple(objs), "iter": iter(list(objs)), "generator": (o for o in list(objs))}.get(container)
+    if arg is None:
+        raise Invalid()
+    out = fn(arg)  # the parameter is documented as an Iterable
     text_in = [o.line for o in objs]
     detail = {"cls": cls_name, "platform": platform, "input": text_in, "output": [o.line for o in out]}
     want = R.iv_norm((b, b | w) for b, w in pairs)
@@ -163,7 +177,10 @@ def case_st(draw, tier):
         nets.append([b & R.ALL1, w])
     case = {"cls": cls, "platform": platform, "nets": nets,
             "styles": draw(st.lists(st.integers(0, 9), min_size=1, max_size=4))}
-    if draw(st.sampled_from([True, False, False])):
+    case["container"] = draw(st.sampled_from(["list", "list", "tuple", "iter", "generator"]))
+    if draw(st.sampled_from(range(5))) == 0:
+        case["spoil"] = draw(st.sampled_from(["note", "line"]))
+    elif draw(st.sampled_from([True, False, False])):
         moves = []
         for _ in range(draw(st.integers(1, 3))):
             plen = draw(st.integers(20, 32))
